@@ -430,4 +430,130 @@ theorem config_resolves (ini env : Env) :
   · simp [List.lookup]
     cases ini.lookup "go-pttbbs:types.utf8_to_big5" <;> simp
 
+/-! #### J. the loader across several initialisations (error path: a table file cannot be read) -/
+
+/-- whenever `initBig5` reports success, EACH map is loaded: it was non-empty before and is unchanged, or it has just
+been filled from the file at its configured path.  (A loader that reports success without having loaded the second
+table — see `single_guard_skips_second_table` — violates the second conjunct.) -/
+theorem initBig5_success_means_loaded (fs : FS) (pb pu : String) (st st' : Loader)
+    (h : initBig5 fs pb pu st = .ok (st', false)) :
+    ((0 < st.b2u.size ∧ st'.b2u = st.b2u) ∨
+      ∃ c rows, fs pb = some c ∧ parseTable c = .ok rows ∧ st'.b2u = b2uMapFrom st.b2u rows) ∧
+    ((0 < st.u2b.size ∧ st'.u2b = st.u2b) ∨
+      ∃ c rows, fs pu = some c ∧ parseTable c = .ok rows ∧ st'.u2b = u2bMapFrom st.u2b rows) := by
+  unfold initBig5 at h
+  cases h1 : initB2U fs pb st with
+  | error x => simp [h1, bind, Except.bind] at h
+  | ok r1 =>
+    obtain ⟨st1, e1⟩ := r1
+    simp only [h1, bind, Except.bind] at h
+    cases e1 with
+    | true => simp [pure, Except.pure] at h
+    | false =>
+      simp only [Bool.false_eq_true, if_false] at h
+      obtain ⟨hu1, hb1⟩ := initB2U_cases fs pb st st1 false h1
+      obtain ⟨hb2, hu2⟩ := initU2B_cases fs pu st1 st' false h
+      constructor
+      · rw [hb2]
+        rcases hb1 with ⟨hs, he, _⟩ | ⟨_, _, _, he⟩ | ⟨_, _, c, rows, hf, hp, hm⟩
+        · exact Or.inl ⟨hs, by rw [he]⟩
+        · cases he
+        · exact Or.inr ⟨c, rows, hf, hp, hm⟩
+      · rw [← hu1]
+        rcases hu2 with ⟨hs, he, _⟩ | ⟨_, _, _, he⟩ | ⟨_, _, c, rows, hf, hp, hm⟩
+        · exact Or.inl ⟨hs, by rw [he]⟩
+        · cases he
+        · exact Or.inr ⟨c, rows, hf, hp, hm⟩
+
+/-- an error is only reported when a table that is still missing cannot be read, and a table loaded before (or
+during) the failing call stays loaded. -/
+theorem initBig5_failure (fs : FS) (pb pu : String) (st st' : Loader)
+    (h : initBig5 fs pb pu st = .ok (st', true)) :
+    (st.b2u.size = 0 ∧ fs pb = none ∧ st' = st) ∨
+    (st.u2b.size = 0 ∧ fs pu = none ∧ st'.u2b = st.u2b ∧
+      ((0 < st.b2u.size ∧ st'.b2u = st.b2u) ∨
+        ∃ c rows, fs pb = some c ∧ parseTable c = .ok rows ∧ st'.b2u = b2uMapFrom st.b2u rows)) := by
+  unfold initBig5 at h
+  cases h1 : initB2U fs pb st with
+  | error x => simp [h1, bind, Except.bind] at h
+  | ok r1 =>
+    obtain ⟨st1, e1⟩ := r1
+    simp only [h1, bind, Except.bind] at h
+    cases e1 with
+    | true =>
+      simp only [if_true, pure, Except.pure] at h
+      cases h
+      obtain ⟨_, hb1⟩ := initB2U_cases fs pb st st' true h1
+      rcases hb1 with ⟨_, _, he⟩ | ⟨hz, hf, he, _⟩ | ⟨_, he, _⟩
+      · cases he
+      · exact Or.inl ⟨hz, hf, he⟩
+      · cases he
+    | false =>
+      simp only [Bool.false_eq_true, if_false] at h
+      obtain ⟨hu1, hb1⟩ := initB2U_cases fs pb st st1 false h1
+      obtain ⟨hb2, hu2⟩ := initU2B_cases fs pu st1 st' true h
+      rcases hu2 with ⟨_, _, he⟩ | ⟨hz, hf, he, _⟩ | ⟨_, he, _⟩
+      · cases he
+      · refine Or.inr ⟨by rw [← hu1]; exact hz, hf, by rw [he, hu1], ?_⟩
+        rw [hb2]
+        rcases hb1 with ⟨hs, he', _⟩ | ⟨_, _, _, he'⟩ | ⟨_, _, c, rows, hf', hp, hm⟩
+        · exact Or.inl ⟨hs, by rw [he']⟩
+        · cases he'
+        · exact Or.inr ⟨c, rows, hf', hp, hm⟩
+      · cases he
+
+/-- the history of the record's error path, for ALL file contents: the first initialisation loads the Big5→UTF-8
+table and fails on the other one (unreadable); ANY later initialisation under which the UTF-8→Big5 file is readable
+succeeds — whatever the first path is by then — and afterwards BOTH lookups are those of the tables built from the
+two files. -/
+theorem retry_after_failed_second_table (fs fs' : FS) (pb pu pb' pu' : String) (st0 : Loader) (cb cu : Bytes)
+    (rb ru : List Row) (h0 : st0.b2u.size = 0) (h0' : st0.u2b.size = 0)
+    (hb : fs pb = some cb) (hpb : parseTable cb = .ok rb) (hne : rb ≠ []) (hu : fs pu = none)
+    (hu' : fs' pu' = some cu) (hpu : parseTable cu = .ok ru) :
+    ∃ st1 st2, initBig5 fs pb pu st0 = .ok (st1, true) ∧ initBig5 fs' pb' pu' st1 = .ok (st2, false) ∧
+      tableOf st2.b2u = tableOf (b2uMap rb) ∧ tableOf st2.u2b = tableOf (u2bMap ru) := by
+  have hz : ¬ (st0.b2u.size > 0) := by omega
+  have hz' : ¬ (st0.u2b.size > 0) := by omega
+  have hpos : 0 < (b2uMapFrom st0.b2u rb).size := size_foldl_insert_pos _ _ rb st0.b2u hne
+  refine ⟨{ st0 with b2u := b2uMapFrom st0.b2u rb }, { b2u := b2uMapFrom st0.b2u rb, u2b := u2bMapFrom st0.u2b ru }, ?_, ?_, ?_, ?_⟩
+  · simp [initBig5, initB2U, initU2B, hz, hz', hb, hpb, hu, bind, Except.bind, pure, Except.pure]
+  · simp [initBig5, initB2U, initU2B, hpos, hz', hu', hpu, bind, Except.bind, pure, Except.pure]
+  · exact tableOf_b2uMapFrom _ h0 rb
+  · exact tableOf_u2bMapFrom _ h0' ru
+
+/-- the loader with ONE guard on the first map only (the shape of a de-duplicating refactoring): -/
+def initBig5SingleGuard (fs : FS) (pb pu : String) (st : Loader) : M (Loader × Bool) :=
+  if st.b2u.size > 0 then .ok (st, false)
+  else match fs pb with
+    | none => .ok (st, true)
+    | some cb => do
+      let rb ← parseTable cb
+      let st1 := { st with b2u := b2uMapFrom st.b2u rb }
+      match fs pu with
+      | none => .ok (st1, true)
+      | some cu => do
+        let ru ← parseTable cu
+        pure ({ st1 with u2b := u2bMapFrom st1.u2b ru }, false)
+
+/-- … after the same failed first call it reports success forever without ever loading the second table: every
+lookup in it is a miss, so `Utf8ToBig5` answers FF FD for every code point. -/
+theorem single_guard_skips_second_table (fs fs' : FS) (pb pu pb' pu' : String) (st0 : Loader) (cb : Bytes)
+    (rb : List Row) (h0 : st0.b2u.size = 0) (h0' : st0.u2b.size = 0)
+    (hb : fs pb = some cb) (hpb : parseTable cb = .ok rb) (hne : rb ≠ []) (hu : fs pu = none) :
+    ∃ st1, initBig5SingleGuard fs pb pu st0 = .ok (st1, true) ∧
+      initBig5SingleGuard fs' pb' pu' st1 = .ok (st1, false) ∧ ∀ k, tableOf st1.u2b k = none := by
+  have hz : ¬ (st0.b2u.size > 0) := by omega
+  have hpos : 0 < (b2uMapFrom st0.b2u rb).size := size_foldl_insert_pos _ _ rb st0.b2u hne
+  refine ⟨{ st0 with b2u := b2uMapFrom st0.b2u rb }, ?_, ?_, ?_⟩
+  · simp [initBig5SingleGuard, hz, hb, hpb, hu, bind, Except.bind]
+  · simp [initBig5SingleGuard, hpos]
+  · intro k; exact getElem?_of_size_zero _ h0' k
+
+/-- table exactness after the retry: with WF rows, every code point converts to the Big5 bytes of its last row. -/
+theorem utf8ToBig5_exact_after_retry (st2 : Loader) (ru : List Row) (hT : tableOf st2.u2b = tableOf (u2bMap ru))
+    (hwf : wfU2B ru = true) (cp : Nat) (h1 : 0x80 ≤ cp) (h2 : cp < 0x10000) :
+    utf8ToBig5 (tableOf st2.u2b) (utf8enc cp) = .ok ((lastByCp ru cp).getD repl) := by
+  rw [hT]
+  exact u2b_table_exact ru hwf cp h1 h2
+
 end PttVerif.C17.Props
